@@ -178,7 +178,8 @@ def _table_shapes():
                     continue  # a multipart table only holds chains (a head must carry the MULTIHEAD marker)
                 rd(ES, True, rc, k, n, last, Q if (rc, k, n, last) in quick_rd else T)
     rd(64, False, True, True, 1, 62, Q)
-    rd(64, False, True, True, 1, 30, T)
+    rd(64, False, True, True, 1, 30, Q)  # empty value
+    rd(64, False, False, False, 1, 0, Q)  # empty value, no header fields
     rd(32, False, False, True, 1, 30, T)
     for (mp, rc, n, last) in [(True, True, 2, 20), (False, False, 1, 40), (False, True, 1, 40)]:
         nm = "u6_r_sk_%s_%s_n%d" % ("mp" if mp else "fx", "r" if rc else "n", n)
